@@ -478,7 +478,10 @@ pub fn run(ctx: &Ctx) -> i32 {
         "exploration",
         "tape -> dsl library in the image of a faithful parser (gen_syntax) -> harness printer (alternative productions from the tape, mild layout) -> parse_program must return the same library (derived ==, plus case-sensitive identifier spellings in visit order). Exhaustive grids: all 225 ordered binary operator pairs x both association shapes, all unary/binary mixes, 225 operator triples x 3 shapes; every POU kind x VAR block class x qualifier x initialiser kind the grammar admits (alone and followed by a neighbour block). Text-first census (for what the AST cannot hold): 3 POU kinds x 14 block headers x 24 declaration forms written as text (exhaustive grid + random multi-POU units); when the combination is derivable from IEC B.1.4.3/B.1.5 and the parser accepts it, every user identifier written must be the span of an Id of the library (nothing dropped). Non-trivial: >= 1 declaration and >= 3 distinct grammar productions exercised; distinct by hash of the program text.",
     );
-    let gates = ctx.gates_for("C01");
+    let mut gates = ctx.gates_for("C01");
+    // '$' escapes: the dsl keeps them verbatim today, decoding them would be equally faithful;
+    // C09 (either reading) and C10 / C08 / C05 (representation independent) cover them
+    gates.set_off("STRING_DOLLAR_ESCAPES_IN_PROGRAMS");
     run_grid(&mut rep, &gates);
     run_decl_grid(&mut rep, &gates);
     run_text_grid(&mut rep, &gates, ctx);
@@ -530,7 +533,8 @@ pub fn witness(w: &Value) -> Result<(), String> {
 }
 
 pub fn replay(ctx: &Ctx, v: &Value) -> i32 {
-    let gates = ctx.gates_for("C01");
+    let mut gates = ctx.gates_for("C01");
+    gates.set_off("STRING_DOLLAR_ESCAPES_IN_PROGRAMS");
     let r = match v["check"].as_str().unwrap_or("") {
         "random-program" => {
             let tape: Vec<u8> = v["tape"].as_array().map(|a| a.iter().map(|x| x.as_u64().unwrap_or(0) as u8).collect()).unwrap_or_default();
